@@ -1,9 +1,11 @@
 package mon
 
 import (
+	"errors"
 	"fmt"
 	"sort"
 	"strings"
+	"time"
 
 	at "github.com/DanielSvub/anytype"
 
@@ -165,6 +167,12 @@ func c06NewObject(p *prog) {
 // adoptResult fills the model node of a Merge / Pluck result: scalars must equal the source value, nested containers
 // may be the identical container or a fresh equal copy (the statement leaves that open), which is then adopted.
 func (p *prog) adoptResult(res *model.Node, real at.Object, expect map[string]model.Val, op string) {
+	p.adoptResultRef(res, real, expect, op, nil)
+}
+
+// adoptResultRef: byRef names the keys whose container value must be the identical instance (Merge: the fields taken
+// from the argument; the statement's map holds Lists/Objects by reference and "prefers the argument's value").
+func (p *prog) adoptResultRef(res *model.Node, real at.Object, expect map[string]model.Val, op string, byRef map[string]bool) {
 	if d := p.h.Bind(res, real); d != "" {
 		p.fail("result-not-fresh:"+op, "a new object", d)
 		return
@@ -181,6 +189,9 @@ func (p *prog) adoptResult(res *model.Node, real at.Object, expect map[string]mo
 		}
 		if got == v.Ref.Real {
 			res.M[k] = v
+		} else if byRef[k] {
+			p.fail("result-holds-a-copy:"+op, fmt.Sprintf("field %q of the result is the argument's container itself (values of kind list/object are held by reference)", k), "another container")
+			return
 		} else {
 			res.M[k] = p.h.ModelFromSpec(v.Ref.ToSpec()) // unbound copy: content verified by the heap check
 			p.c.Count("nested_copied_in_" + op)
@@ -253,6 +264,10 @@ func c06Program(p *prog, steps int) {
 				args = append(args, keys[i], h.Arg(vals[i]))
 			}
 			var ret at.Object
+			wasNative := make([]bool, len(vals))
+			for i, v := range vals {
+				wasNative[i] = v.Ref != nil && v.Ref.Real == nil
+			}
 			p.step("Set", fmt.Sprintf("%s.Set(%s)", o.Name(), showPairs(keys, vals)), false, func() {
 				for i := range keys {
 					o.M[keys[i]] = vals[i]
@@ -260,6 +275,23 @@ func c06Program(p *prog, steps int) {
 				ret = real.Set(args...)
 			})
 			p.expect(p.failed || any(ret) == o.Real, "Set-return", "the receiver", "another value")
+			if !p.failed && len(keys) > 0 && r.Chance(1, 5) {
+				// the very same argument slice spread into a second call: same fields again, native values converted afresh
+				vals2 := make([]model.Val, len(vals))
+				for i, v := range vals {
+					vals2[i] = v
+					if wasNative[i] {
+						vals2[i] = h.ModelFromSpec(v.Ref.ToSpec())
+					}
+				}
+				p.c.Count("argument_slices_reused")
+				p.step("Set", fmt.Sprintf("%s.Set(the same argument slice again: %s)", o.Name(), showPairs(keys, vals2)), false, func() {
+					for i := range keys {
+						o.M[keys[i]] = vals2[i]
+					}
+					real.Set(args...)
+				})
+			}
 		case op < 26: // Set with an odd argument count: panics, nothing applied
 			args := []any{pickKey(), 1, pickKey()}
 			desc := fmt.Sprintf("%s.Set(%q, 1, %q) [odd count]", o.Name(), args[0], args[2])
@@ -279,7 +311,7 @@ func c06Program(p *prog, steps int) {
 			p.step("Set-odd", desc, true, func() { real.Set(args...) })
 		case op < 30: // Set with a non-string key at pair k: panics; any applied prefix of the pairs is accepted
 			k0, v0 := pickKey(), scalarVal(r)
-			bad := []any{1, 2.5, nil, true, []byte("k")}[r.Intn(5)]
+			bad := []any{1, 2.5, nil, true, []byte("k"), at.NewList(1, 2), at.NewObject("a", 1), time.Second, errors.New("k"), []string{"k"}, 'k', struct{}{}}[r.Intn(12)]
 			var args []any
 			pos := r.Intn(2)
 			if pos == 0 {
@@ -337,12 +369,14 @@ func c06Program(p *prog, steps int) {
 			for k, v := range o.M {
 				expect[k] = v
 			}
+			fromArg := map[string]bool{}
 			for k, v := range other.M {
 				expect[k] = v
+				fromArg[k] = true
 			}
 			p.step("Merge", fmt.Sprintf("%s = %s.Merge(%s)", res.Name(), o.Name(), other.Name()), false, func() {
 				ret := real.Merge(other.Object())
-				p.adoptResult(res, ret, expect, "Merge")
+				p.adoptResultRef(res, ret, expect, "Merge", fromArg)
 			})
 		case op < 56: // Pluck
 			k := r.Intn(4)
